@@ -333,6 +333,25 @@ def gen_mdp_for(rng, tier, cap, **kw):
     return gen_mdp.gen_mdp(rng, nmax=nmax, amax=3, proper=long_run or rng.random() < .3, **kw)
 
 
+def unlist_actions(rng, m, share=.35):
+    """actions(s) lists fewer actions than the model defines transitions for (the policy's support is then not contained in
+    actions(s)), possibly none at a non-absorbing state (a dead end where the policy still has a distribution).  Roll-outs
+    never consult actions(s): the recorded action is the sampled one, only absorbing states and the cap stop a roll-out."""
+    if rng.random() >= share:
+        return m
+    listed = []
+    for s_, acts in enumerate(m["actions"]):
+        r = rng.random()
+        if r < .4:
+            listed.append(list(acts))
+        elif r < .65:
+            listed.append([])
+        else:
+            listed.append(sorted(rng.sample(list(acts), rng.randint(0, max(0, len(acts) - 1)))))
+    m["listed"] = listed
+    return m
+
+
 def gen_mdp_run(rng, tier):
     cap = gen_cap(rng)
     dyadic = rng.random() < .5
@@ -340,6 +359,7 @@ def gen_mdp_run(rng, tier):
     bfeats = []
     if rng.random() < .3:
         m, bfeats = perturb_mdp(rng, m, dyadic)
+    m = unlist_actions(rng, m)
     s0 = None if rng.random() < .5 else rng.randrange(m["n"])
     capn = 40 if cap in ("large", "default") else cap
     opts = gen_opts(rng, m, allow_global=True)
@@ -434,6 +454,7 @@ def gen_mdp_eval(rng, tier, deterministic):
         m = make_deterministic(m)
     elif rng.random() < .3:
         m, bfeats = perturb_mdp(rng, m, dyadic)
+    m = unlist_actions(rng, m)
     n_sims = rng.choice([1, 2, 3, 5, 8])
     capn = 30 if cap == "large" else cap
     opts = gen_opts(rng, m)
@@ -527,6 +548,7 @@ def gen_pomdp_run(rng, tier, probe=False):
     if kind == "sfsc" and cap == "large":
         cap = 8
     m = gen_mdp_for(rng, tier, cap, uniform_actions=True)
+    m = unlist_actions(rng, m, .4)        # state-dependent action lists: the controller may play an action unlisted in the hidden state
     n, nA = m["n"], m["nA"]
     nO = rng.randint(1, 3)
     obs = {}
@@ -908,6 +930,18 @@ def tiny_events_mdp(case, steps, first_state, sampled):
     return k
 
 
+def unlisted_feats(feats, m, steps, a_index):
+    """steps whose (recorded) action is not in actions(s); steps taken from a non-absorbing state with an empty action list"""
+    if "listed" not in m:
+        return
+    feats["cases_with_unlisted_actions"] = feats.get("cases_with_unlisted_actions", 0) + 1
+    for st in steps:
+        if st[a_index] not in m["listed"][st[0]]:
+            feats["steps_with_action_not_in_actions_s"] = feats.get("steps_with_action_not_in_actions_s", 0) + 1
+        if not m["listed"][st[0]]:
+            feats["steps_from_dead_end_state"] = feats.get("steps_from_dead_end_state", 0) + 1
+
+
 def size_feats(feats, m, nO=None):
     for name, ok in (("one_state", m["n"] == 1), ("one_action", m["nA"] == 1), ("n_states_eq_n_actions", m["n"] == m["nA"]),
                      ("one_observation", nO == 1)):
@@ -1121,6 +1155,7 @@ def run(ctx):
                 clause = "SimulationResult/Step entry point misbehaves: " + ",".join(k for k, ok in sorted(res["container"].items()) if not ok)
             reuse_checks(case, res)
             size_feats(feats, case["mdp"])
+            unlisted_feats(feats, case["mdp"], steps, 1)
             te = tiny_events_mdp(case, steps, ([st[0] for st in steps] + [res["final"]])[0], case["s0"] is None)
             feats["tiny_prob_events_drawn"] = feats.get("tiny_prob_events_drawn", 0) + te
             feats["nondyadic_reward_steps_bit_exact"] = feats.get("nondyadic_reward_steps_bit_exact", 0) + \
@@ -1165,6 +1200,8 @@ def run(ctx):
                 st = [[s, a, ns, vlib.frac(r)] for s, a, ns, r, _ in ro["steps"]]
                 clause = clause or mdp_clauses(case, st, ro["final"], None, cap_int_of(case))
             reuse_checks(case, res)
+            for ro in res["rollouts"]:
+                unlisted_feats(feats, case["mdp"], ro["steps"], 1)
             for ro in res["rollouts"]:
                 st_ = [[s_, a_, ns_, vlib.frac(r_)] for s_, a_, ns_, r_, _ in ro["steps"]]
                 feats["tiny_prob_events_drawn"] = feats.get("tiny_prob_events_drawn", 0) + tiny_events_mdp(case, st_, ro["acc_state"][0], True)
@@ -1268,6 +1305,7 @@ def run(ctx):
                 if b0 == "prior":
                     feats["belief_prior_passed_explicitly"] = feats.get("belief_prior_passed_explicitly", 0) + 1
             size_feats(feats, case["mdp"], case["nO"])
+            unlisted_feats(feats, case["mdp"], res["steps"], 2)
             for st_ in res["steps"]:
                 if rel_weight(case["obs"]["%d,%d" % (st_[2], st_[3])], st_[5]) <= TINY:
                     feats["tiny_prob_observations_drawn"] = feats.get("tiny_prob_observations_drawn", 0) + 1
@@ -1453,7 +1491,9 @@ def run(ctx):
                 "by equal rows and one action list shared by states, inputs snapshotted before/after; first result re-read after a second "
                 "call, second evaluate_on on the same policy, same problem built twice in a process; int-typed rewards/probabilities, "
                 "integer and float32 arrays; one state / action / observation; distribution / reward / absorbing-flag objects updated IN PLACE "
-                "between two roll-outs of the same policy object (second roll-out judged against the current contents); evaluate_on with "
+                "between two roll-outs of the same policy object (second roll-out judged against the current contents); actions(s) listing fewer actions than the "
+                "model defines (policy support not contained in actions(s); the recorded action must be the sampled one) or none at a "
+                "non-absorbing state (dead ends: only absorbing states and the cap stop a roll-out), MDPs and POMDPs; evaluate_on with "
                 "more than 1e5 recorded visits of one state (230..330 simulations x 450..720 steps on 1- and 2-state cycles, Python-only "
                 "exact counts and means from the recorded roll-outs); episodes of 1100..1500 steps (Python-only exact clauses); distinct = structural hash of "
                 "(model, policy, start, cap, trajectory); non-trivial = at least one step taken (returns: length > 1)" % (5 if tier == "quick" else 7),
